@@ -72,7 +72,7 @@ Fixpoint cycle_take (n : nat) (cur src : list px) : list px :=
 
 (** new pixels of a copy, in scan order *)
 Definition copy_pixels (n d : nat) (acc : list px) : list px :=
-  let src := rev (firstn d acc) in cycle_take n src src.
+  let src := frev (firstn d acc) in cycle_take n src src.
 
 (* ------------------------------------------------------------------ *)
 (** * Entropy-coded images *)
@@ -90,7 +90,7 @@ Definition read_group (cache_size : Z) (s : bits) : Res (group * bits) :=
 
 Fixpoint read_groups (n : nat) (cache_size : Z) (acc : list group) (s : bits) : Res (list group * bits) :=
   match n with
-  | O => Ok (rev acc, s)
+  | O => Ok (frev acc, s)
   | S n' => '(g, s) <- read_group cache_size s ;; read_groups n' cache_size (g :: acc) s
   end.
 
@@ -106,7 +106,7 @@ Definition group_at (c : ectx) (x y : Z) : group :=
   if e_meta_bits c =? 0 then arr_get group_dummy (e_groups c) 0
   else
     let b := e_meta_bits c in
-    arr_get group_dummy (e_groups c) (arr_get 0 (e_meta c) ((y / 2 ^ b) * e_meta_w c + x / 2 ^ b)).
+    arr_get group_dummy (e_groups c) (arr_get 0 (e_meta c) (tile_index (e_meta_w c) b x y)).
 
 Definition cache_insert (bits : Z) (cache : arr px) (p : px) : arr px :=
   if bits =? 0 then cache else arr_set cache (cache_hash bits p) p.
@@ -157,7 +157,7 @@ Definition cache_size_of (bits : Z) : Z := if bits =? 0 then 0 else 2 ^ bits.
     the main image). *)
 Definition decode_pixels (c : ectx) (w h : Z) (s : bits) : Res (list px * bits) :=
   '(acc, s) <- pixels_loop (S (Z.to_nat (w * h))) c (w * h) 0 0 0 arr_empty [] s ;;
-  Ok (rev acc, s).
+  Ok (frev acc, s).
 
 (** A sub-image (transform data, meta prefix image): colour cache info, one
     prefix-code group, pixels. *)
@@ -213,10 +213,12 @@ Definition inverse_transform (t : transform) (img : list px) : list px :=
   match t_type t with
   | 0 =>
     let a := arr_of_list (t_data t) in
-    predictor_inv (fun x y => pg (arr_get px_zero a (tile_index (t_w t) (t_bits t) x y))) (t_w t) img
+    let tw := subsample (t_w t) (t_bits t) in
+    predictor_inv (fun x y => pg (arr_get px_zero a (tile_index tw (t_bits t) x y))) (t_w t) (Z.to_nat (t_w t)) img
   | 1 =>
     let a := arr_of_list (t_data t) in
-    cross_color_inv (fun x y => arr_get px_zero a (tile_index (t_w t) (t_bits t) x y)) (t_w t) img
+    let tw := subsample (t_w t) (t_bits t) in
+    cross_color_inv (fun x y => arr_get px_zero a (tile_index tw (t_bits t) x y)) (t_w t) img
   | 2 => subtract_green_inv img
   | _ =>
     let a := arr_of_list (t_data t) in
